@@ -6,6 +6,19 @@ open FrameSpec FrameWrite
 /-- stream ids the allocator hands out for a protocol version (C08): 7 bits up to v2, 15 bits from v3 -/
 def StreamInRange (v : Nat) (s : Int) : Prop := 0 ≤ s ∧ s < (if v ≤ 2 then 128 else 32768)
 
+/-- a frame that is built passed the count checks, and is the frame of the builders proper -/
+theorem encodeReq_ok {v : Nat} {tracing : Bool} {stream now : Int} {g : GReq} {bs : Bytes}
+    (he : encodeReq v tracing stream now g = .ok bs) :
+    tooManyG g = false ∧ encodeReq0 v tracing stream now g = .ok bs := by
+  unfold encodeReq at he
+  cases h : tooManyG g
+  · simp only [h, Bool.false_eq_true, if_false] at he; exact ⟨rfl, he⟩
+  · simp [h] at he
+
+theorem encodeReq_eq0 (v : Nat) (tracing : Bool) (stream now : Int) (g : GReq) (h : tooManyG g = false) :
+    encodeReq v tracing stream now g = encodeReq0 v tracing stream now g := by
+  simp [encodeReq, h]
+
 theorem rdStream_w (v : Nat) (s : Int) (r : Bytes) (h : StreamInRange v s) :
     rdStream v ((if v > 2 then [byteOf ((s / 256) % 256).toNat, byteOf (s % 256).toNat]
                  else [byteOf (s % 256).toNat]) ++ r) = some (s, r) := by
@@ -71,7 +84,8 @@ theorem roundtrip_of_body (v : Nat) (tracing : Bool) (stream now : Int) (g : GRe
     (he : encodeReq v tracing stream now g = .ok bs) :
     decodeReq (bs ++ rest) = some ⟨v, tracing, stream, ask now g, rest⟩ := by
   have hpl := payloadOk_of_expressible v now g hx
-  unfold encodeReq at he
+  have he := (encodeReq_ok he).2
+  unfold encodeReq0 at he
   by_cases hnp' : (payloadOf g).length > 0 ∧ v < 4
   · simp [hnp'] at he
   · have hnp := hnp'
